@@ -78,6 +78,7 @@ type pathCtx struct {
 	asserts int
 	permute bool // symbolic map iteration order
 	permuteIn string // when non-empty: only in functions whose name contains this
+	addrs map[*value]value // printed addresses of pointers (arbitrary, consistent per object)
 	steps   int64
 	vars    []*Term           // variables created on this path
 	mdl     map[string]uint64 // a model of the current PC, when known
